@@ -166,6 +166,7 @@ def surface_points(rng, spec, n):
     if base['op'] == 'csg':
         base = rng.choice([base['args']['s1'], base['args']['s2']])
         while base['op'] == 'translated':
+            shift = [shift[i] + base['args']['vec'][i] for i in range(3)]
             base = base['args']['sc']
     a = base['args']
     c = [a['center'][i] + shift[i] for i in range(3)]
@@ -277,10 +278,25 @@ class C20:
                         round(oc[i] + rfloat(rng, -0.6, 0.6, 3), 3)
                         for i in range(3)]
                     other['args']['n'] = spec['args']['n']
+                    if rng.random() < 0.3:
+                        # an operand that was itself moved into place
+                        vec = [rfloat(rng, -2, 2, 3) for _ in range(3)]
+                        other['args']['center'] = [
+                            round(other['args']['center'][i] - vec[i], 3)
+                            for i in range(3)]
+                        other = {'op': 'translated', 'args': {
+                            'sc': other, 'vec': vec,
+                            'as_three': rng.random() < 0.5}}
                     spec = {'op': 'csg', 'args': {
                         'kind': rng.choice(['Union', 'Difference',
                                             'Intersection']),
                         's1': spec, 's2': other}}
+                if spec['op'] == 'csg' and rng.random() < 0.35:
+                    # a composite moved as a whole
+                    spec = {'op': 'translated', 'args': {
+                        'sc': spec, 'vec': [rfloat(rng, -3, 3, 3)
+                                            for _ in range(3)],
+                        'as_three': rng.random() < 0.5}}
                 pts = surface_points(rng, spec, rng.randint(8, 30))
                 b.emit('geom_query', {'sc': spec, 'points': pts,
                                       'background': rng.choice([1.0, 1.33])},
